@@ -25,7 +25,7 @@ correspondence : the *checked-execution* (`Ck`) Lean models of 24 kernels (gauss
 search         : every kernel of the shim inventory (spec.json) is executed in child processes from the
                  ASan/UBSan/_GLIBCXX_ASSERTIONS build of the working-tree headers, on exact-size NumPy buffers:
                  (a) raw calls with generated structurally valid inputs (empty rows, missing/zero diagonals, isolated
-                 nodes, dense rows, unsorted indices, admissible forward/backward/strided sweeps, block sizes, thresholds,
+                 nodes, dense rows, unsorted indices, duplicate stored entries, admissible forward/backward/strided sweeps, block sizes, thresholds,
                  all instantiated value types), (b) the public pyamg functions on the same adversarial matrices, so that
                  every buffer has exactly the size the Python callers allocate.  Every kernel call is traced: outputs are
                  poisoned beforehand and the contractually defined region must be overwritten; live heap bytes are
@@ -55,7 +55,7 @@ VERIF = HARNESS.parent
 
 META = {
     'rule': 'kernel calls: n = 1..12 mostly (up to 40), CSR/BSR patterns with density in {0,.1,.25,.5,1}, forced empty first/last '
-            'rows, isolated nodes, a dense row, missing / explicitly zero diagonals, unsorted column indices, symmetric and '
+            'rows, isolated nodes, a dense row, missing / explicitly zero diagonals, unsorted column indices, columns stored twice (3 patterns in 10 of the sanitizer search), symmetric and '
             'nonsymmetric patterns, values small integers (float32/64, complex64/128 as instantiated), sweeps forward / backward / '
             'strided (admissible: stop reached through rows 0..n-1), block sizes 1..3, thresholds in {0, .25, .5, 1, 2}; '
             'a case is one traced kernel call, non-trivial when its matrix has at least one stored entry; distinct = distinct '
@@ -85,7 +85,9 @@ META = {
                 'not about Ck transcriptions (connected_components additionally has the Ck theorem connected_components_safe, which includes termination)'],
     'assumptions': ['admissible sweep = `stop` is reached from `start` in k steps of `step`, all visited rows inside 0..n-1 (Ck.Adm); for block kernels rows are block rows; '
                     'jacobi_ne (loops `i < stop`) is called with start >= 0, stop <= n, step > 0 only',
-                    'inputs the Python callers never construct (S with diagonal for RS/CLJP, unsorted subdomains for Schwarz) are not generated',
+                    'inputs the Python callers never construct (S with diagonal for RS/CLJP) are not generated by the raw splitting scenarios; the Schwarz kernels get any structurally valid A '
+                    '(rows unsorted / with duplicate entries: schwarz_parameters() does not canonicalise A) and subdomains that are sorted+unique, in any order, with repetitions, '
+                    'the stored rows of A, or empty, raw and through schwarz_parameters() / schwarz(subdomain=...)',
                     'interpolation pass 2 (direct, classical): `Pp` is the output of the matching first pass on the same S / splitting (PpOK, proved for the pass-1 model: '
                     'interpolation_pass1_establishes_PpOK) and Pj, Px hold at least Pp[n] entries; truncate_rows_csr: k >= 0; filter_matrix_rows with lump: no norm is below theta*0 '
                     '(hypothesis on the abstract scalar operations, true for IEEE doubles and exact arithmetic); BSR kernels: Ax holds blocksize^2 values per stored block',
@@ -1591,6 +1593,17 @@ def child_main(argv):
     import corebuild
     if a.model_items:
         corebuild.activate()
+        # a kernel output that is not finite on an exact dyadic input (e.g. computed from memory outside the arrays in this plain build) has to become a
+        # correspondence failure (no exact model value prints as `nan`), not a crash of this child in Fraction(nan) (the unchanged tree never gets here)
+        import common as _cm
+        _enc_rat = _cm.enc_rat
+
+        def _enc_rat_total(x):
+            try:
+                return _enc_rat(x)
+            except (ValueError, OverflowError):
+                return 'nan'
+        _cm.enc_rat = _enc_rat_total
         items, feats = model_items(a.seed, a.ncases, a.inflight)
         Path(a.out).write_text(json.dumps({'items': items, 'feats': feats}))
         return 0
